@@ -86,18 +86,23 @@ func Path(n int) *DenseGraph {
 	}
 
 	degrees := make([]int, n)
-	if n > 0 {
+	m := 0
+	if n > 1 {
+		m = n - 1
 		degrees[0] = 1
 		degrees[n-1] = 1
 		for i := 1; i < n-1; i++ {
 			degrees[i] = 2
 		}
 	}
-	return &DenseGraph{NumberOfVertices: n, NumberOfEdges: n - 1, DegreeSequence: degrees, Edges: edges}
+	return &DenseGraph{NumberOfVertices: n, NumberOfEdges: m, DegreeSequence: degrees, Edges: edges}
 }
 
 //Cycle returns a copy of the cycle on n vertices.
 func Cycle(n int) *DenseGraph {
+	if n < 3 {
+		panic("a cycle has at least 3 vertices")
+	}
 	edges := make([]byte, (n*(n-1))/2)
 	for i := 0; i < n-1; i++ {
 		edges[((i+1)*i)/2+i] = 1
@@ -119,14 +124,16 @@ func Star(n int) *DenseGraph {
 	}
 
 	degrees := make([]int, n)
+	m := 0
 	if n > 0 {
+		m = n - 1
 		degrees[0] = n - 1
 		for i := 1; i < n; i++ {
 			degrees[i] = 1
 		}
 	}
 
-	return &DenseGraph{NumberOfVertices: n, NumberOfEdges: n - 1, DegreeSequence: degrees, Edges: edges}
+	return &DenseGraph{NumberOfVertices: n, NumberOfEdges: m, DegreeSequence: degrees, Edges: edges}
 }
 
 //RookGraph returns the n x m Rook graph i.e. the graph representing the moves of a rook on an n x m chessboard.
